@@ -195,3 +195,26 @@ _R10["C19"] = (_R10["C19"][0] + ", cycle search from every node (CY)", _R10["C19
 for _k, (_t, _l) in _R10.items():
     _a, _b, _c = CLAIMED[_k]
     CLAIMED[_k] = (_a + _t, _b + _l, _c)
+
+# round 11 (fourth hunt)
+_R11 = {
+ "C01": ("; GenBank keyword clauses against the grammar (GBG), folded fields (FLD)", " Also decides that ORIGIN is accepted after CONTIG, // after the features, and that folded SOURCE/OS lines are read whole."),
+ "C02": ("; OBI parser resumes at the end of the match (OBS), conversion errors (PF), titles valid UTF-8 at read (IU), offset subtraction guarded (QS-3), no comment character in CSV (CSVC), identifiers without blank on title lines (TID)",
+         " Also decides that no byte is skipped after a ';', that an out-of-range number stays text, that the first write is already the fixed point for invalid bytes, and that a score below the offset does not wrap."),
+ "C03": ("; CSV records never taken for comments (CSVC), empty class guarded (E0 without exemption), map-ordered record loops (ND e)", ""),
+ "C04": ("; JSON/CSV iterator ended after the file is written (WD-5), identifiers without blank (TID)", ""),
+ "C05": ("; records stored while ranging over map-ordered slices, batches pushed in a map range, tables rebuilt under computed keys (ND e, g)", " Also decides that obijoin, obiconsensus and the reverse complement of mismatch keys do not depend on map order."),
+ "C06": ("; identifiers without blank on title lines (TID, the former known findings FID repaired), keys of statistics maps and composite category values named as written (CTX-3)",
+         " Also decides that the on-disk chunks can be read back for every identifier, and that two values printed alike are one value."),
+ "C10": ("; no repeat for an empty sequence, u read as t (CP, clang)", ""),
+ "C11": ("; no repeat for an empty sequence (CP)", ""),
+ "C13": ("; annotations filed under colliding keys in a map range (ND f)", ""),
+ "C15": ("; empty index rebuilt (IX0), ambiguous windows left out of the 4-mer index (A4)", ""),
+ "C16": ("; previous-run attributes forgotten by the barcode extractors (PRV), parameters read (UP), -S in the order given (SO)",
+         " Also decides that a second pass of obimultiplex routes on this run's annotations, that --only-forward reaches the pattern worker, and that -S expressions chain in command-line order."),
+ "C18": ("; WD-5", ""),
+ "C19": ("; consumers of Encode4mer skip ambiguous windows (A4), HaviestPath on weightless graphs (HW)", " Also decides that no window holding an ambiguity code is indexed, and that an acyclic graph always has a path."),
+}
+for _k, (_t, _l) in _R11.items():
+    _a, _b, _c = CLAIMED[_k]
+    CLAIMED[_k] = (_a + _t, _b + _l, _c)
